@@ -102,7 +102,7 @@ CHECKS = {
         "exploration",
         "exhaustive enumeration of (N, batch spec, realisation, shuffle, "
         "farmer) with a read-back oracle on the batch files",
-        "Every N up to 32 (quick) / 48 (thorough), every batchsize 1..N+1 and "
+        "Every N up to 32 (quick) / 64 (thorough), every batchsize 1..N+1 and "
         "num_batches 1..N+2, for grids, factorised grids, case lists and "
         "cases x sub-grid, three shuffle settings, spec at construction or at "
         "sow, plain and Runner-backed crops: the batch files are unpickled "
@@ -172,7 +172,7 @@ CHECKS = {
         "operation in results/ is a yield point and the schedule is a "
         "generated value.  Five small configurations are enumerated "
         "completely (about 1.9k interleavings on the current tree); 3000 "
-        "(quick) / 120000 (thorough) generated schedules cover crops of 1-3 "
+        "(quick) / 300000 (thorough) generated schedules cover crops of 1-3 "
         "batches with up to 4 growers.  The reaper must return the exact "
         "result without error and the poller must never count a file that is "
         "not complete at that very instant.",
